@@ -208,7 +208,19 @@ def gen_host(seed):
             if not (blocks and blocks[-1] == b == 'select'):
                 blocks.append(b)
         indent = len(line) - len(line.lstrip())
-        sites.append({'routine': routine, 'blocks': blocks, 'before': off + i + 1, 'indent': indent})
+        # may an ELSE / ELSEIF still be written here?  (innermost block an IF block, the site not in its ELSE arm,
+        # and for ELSE: no ELSEIF or ELSE arm further down)
+        ce = ci = False
+        p = info['parent']
+        if blocks and blocks[-1] == 'if' and p:
+            pk = li[p - 1]['kinds'][0]
+            if pk in ('if', 'elseif'):
+                header = p if pk == 'if' else li[p - 1]['parent']
+                later = [li[j]['kinds'][0] for j in range(i, len(li)) if li[j]['kinds'] and li[j]['parent'] == header
+                         and li[j]['kinds'][0] in ('elseif', 'else')]
+                ci = True
+                ce = not later
+        sites.append({'routine': routine, 'blocks': blocks, 'before': off + i + 1, 'indent': indent, 'ce': ce, 'ci': ci})
         if k0 in ('endsub', 'endfunction'):
             routine = 'main'
     return lines, sites, text
@@ -322,7 +334,7 @@ def _run(ctx, work):
     for hi, (lines, sites, text) in enumerate(ghosts):
         rng.shuffle(sites)
         for si, s in enumerate(sites[:ctx.pick(4, 12)]):
-            extra.append({'name': 'g%d_%d' % (hi, si), 'routine': s['routine'], 'blocks': s['blocks'], '_host': hi, '_site': s})
+            extra.append({'name': 'g%d_%d' % (hi, si), 'routine': s['routine'], 'blocks': s['blocks'], 'ce': s['ce'], 'ci': s['ci'], '_host': hi, '_site': s})
     names = sorted(FAULTS)
     gobs = []
     for e in extra:
@@ -335,7 +347,7 @@ def _run(ctx, work):
     obs = par.pmap(_job, jobs, chunk=8)
     # verdicts (the generated hosts' sites are passed as extra sites)
     spath = os.path.join(work, 'sites.json')
-    tlc.write_json(spath, [{'name': e['name'], 'routine': e['routine'], 'blocks': e['blocks']} for e in extra])
+    tlc.write_json(spath, [{'name': e['name'], 'routine': e['routine'], 'blocks': e['blocks'], 'ce': e['ce'], 'ci': e['ci']} for e in extra])
     verd = {}
     SH = 6000
     for si in range(0, len(obs), SH):
